@@ -385,9 +385,11 @@ func (h *RequestHeader) RawHeaders() []byte {
 // AppendBytes appends request header representation to dst and returns
 // the extended dst.
 func (h *RequestHeader) AppendBytes(dst []byte) []byte {
-	dst = append(dst, h.Method()...)
+	// the request line is one line whatever the method and the target are made of (through
+	// a proxy and for CONNECT the target contains the host the application set)
+	dst = appendNoNewline(dst, h.Method())
 	dst = append(dst, ' ')
-	dst = append(dst, h.RequestURI()...)
+	dst = appendNoNewline(dst, h.RequestURI())
 	dst = append(dst, ' ')
 	dst = append(dst, bytestr.StrHTTP11...)
 	dst = append(dst, bytestr.StrCRLF...)
@@ -1681,6 +1683,14 @@ func appendHeaderLine(dst, key, value []byte) []byte {
 }
 
 // newlineToSpace will return a copy of the original byte slice.
+// appendNoNewline appends val to dst with CR and LF turned into spaces.
+func appendNoNewline(dst, val []byte) []byte {
+	for _, c := range val {
+		dst = append(dst, bytesconv.NewlineToSpaceTable[c])
+	}
+	return dst
+}
+
 func newlineToSpace(val []byte) []byte {
 	filteredVal := make([]byte, len(val))
 	copy(filteredVal, val)
